@@ -1,6 +1,10 @@
 package main
 
 import (
+	"encoding/json"
+	"fmt"
+	"os"
+
 	"github.com/bitcoin-sv/block-headers-service/verifharness/checks/c06"
 	"github.com/bitcoin-sv/block-headers-service/verifharness/p2prig"
 )
@@ -8,4 +12,12 @@ import (
 func init() {
 	register("C06", c06.Spec)
 	subcommands["__scenario"] = p2prig.ScenarioMain
+	// __c06gen <case index> : print the scenario the current VERIF_SEED / VERIF_TIER generates (debug aid)
+	subcommands["__c06gen"] = func(args []string) {
+		var i int
+		fmt.Sscan(args[0], &i)
+		b, _ := json.Marshal(c06.GenerateFor(i))
+		fmt.Println(string(b))
+		os.Exit(0)
+	}
 }
